@@ -916,6 +916,26 @@ Section Laws.
     reflexivity.
   Qed.
 
+  (** a quote that is never closed: the loop runs to the end of the input and reports [None] *)
+  Lemma quoted_loop_unterminated q : forall s fuel acc L,
+    rest L = s -> ~ In q s -> (length s < fuel)%nat ->
+    exists L', quoted_loop input len fuel q acc L = Ok (None, L').
+  Proof.
+    induction s as [|c s IH]; intros fuel acc L HR Hq Hf.
+    - destruct fuel as [|f]; [cbn in Hf; lia|]. cbn [quoted_loop]. rewrite (rest_nil L HR).
+      eexists. reflexivity.
+    - destruct fuel as [|f]; [cbn in Hf; lia|]. cbn [length] in Hf.
+      destruct (rest_cons L c s HR) as (He & Hc & _ & _).
+      cbn [quoted_loop]. rewrite He, cur_tick, Hc.
+      assert (Hcq : (c =? q) = false).
+      { apply Z.eqb_neq. intros ->. apply Hq. left. reflexivity. }
+      rewrite Hcq.
+      assert (Ha' : adv (tick L) = mkL (S (position L)) (S (ticks L))).
+      { rewrite adv_noteof by exact He. reflexivity. }
+      rewrite Ha'.
+      apply (IH f (c :: acc)); [apply (rest_mk_S L c s _ HR) | intros H; apply Hq; right; exact H | lia].
+  Qed.
+
   Lemma repeat_app_cons {A} (x : A) k l : repeat x k ++ x :: l = x :: repeat x k ++ l.
   Proof. induction k as [|k IH]; cbn; [reflexivity | rewrite IH; reflexivity]. Qed.
 
@@ -1132,3 +1152,26 @@ Example lex_paren_text_nontrivial :
   tokenize_ascii (paren_text 2) =
   Ok [TKeyword [83; 101; 108; 101; 99; 116]; TLParen; TLParen; TNumber [49]; TRParen; TRParen; TEof].
 Proof. vm_compute. reflexivity. Qed.
+
+(** truncated input: an opening quote that is never closed is a lexer error (not a panic, not a loop),
+    whatever follows it *)
+Theorem lex_unterminated_string ua uu (s : list Z) :
+  ~ In 39 s -> exists L, tokenize ua uu (39 :: s) = Err EUnterminatedString L.
+Proof.
+  intros Hq. set (cs := 39 :: s).
+  unfold tokenize, tokenize_full, tokenize_run. unfold fuel0 at 1. cbn [tokenize_loop].
+  assert (R0 : rest cs (tick (mkL 0 0)) = 39 :: s) by reflexivity.
+  rewrite (skip_ws_noop cs _ 39 s R0 eq_refl eq_refl). cbn [bind].
+  destruct (rest_cons cs _ _ _ R0) as (He & _). rewrite eof_tick, He.
+  assert (R1 : rest cs (tick (tick (tick (mkL 0 0)))) = 39 :: s) by reflexivity.
+  destruct (rest_cons cs _ _ _ R1) as (He1 & Hc1 & Ha1 & HR1).
+  unfold next_token. rewrite Hc1. cbn [Z.eqb Pos.eqb orb].
+  unfold tokenize_string. rewrite Hc1.
+  destruct (quoted_loop_unterminated cs 39 s (fuel0 (length cs)) [] _ HR1 Hq) as (L' & E).
+  { unfold fuel0. subst cs. cbn [length]. lia. }
+  rewrite E. cbn [bind]. eexists. reflexivity.
+Qed.
+
+Example lex_unterminated_string_nontrivial :
+  exists L, tokenize_ascii [39; 83; 69; 76; 69; 67; 84; 32; 45; 45; 10; 34] = Err EUnterminatedString L.
+Proof. eexists. vm_compute. reflexivity. Qed.
